@@ -4,6 +4,7 @@ import (
 	"bufio"
 	"bytes"
 	"context"
+	"encoding/binary"
 	"encoding/hex"
 	"fmt"
 	"io"
@@ -19,7 +20,9 @@ import (
 	"github.com/ipfs/go-cid"
 	carv2 "github.com/ipld/go-car/v2"
 	"github.com/ipld/go-car/v2/blockstore"
+	carv1 "github.com/ipld/go-car"
 	"github.com/ipld/go-car/v2/storage"
+	mh "github.com/multiformats/go-multihash"
 )
 
 // Implementation drivers of the kinds "resume" (C12) and "crash" (C06); wire formats are in
@@ -210,6 +213,52 @@ func c12Refusal(work string, kind uint64, o2 wOpts, roots2 []cid.Cid, file []byt
 		return "first-header"
 	}
 	return "later"
+}
+
+// crHeaderPayloadLen: length of the CARv1 header's CBOR payload (what its length varint encodes)
+func crHeaderPayloadLen(roots []cid.Cid) int {
+	var buf bytes.Buffer
+	if err := carv1.WriteHeader(&carv1.CarHeader{Roots: roots, Version: 1}, &buf); err != nil {
+		panic(err)
+	}
+	l, k := binary.Uvarint(buf.Bytes())
+	if k <= 0 || int(l)+k != buf.Len() {
+		panic("header framing")
+	}
+	return int(l)
+}
+
+// crRootsForHeaderLen: distinct roots whose CARv1 header payload is EXACTLY target bytes long (the
+// length varint of the header changes width at 128 and 16384: carv1.HeaderSize / util.LdSize must
+// follow).  36-byte sha2-256 CIDv1s, then one or two identity CIDs of fitted digest length.
+func crRootsForHeaderLen(r *RNG, target int) []cid.Cid {
+	var roots []cid.Cid
+	for i := 0; ; i++ {
+		next := append(append([]cid.Cid{}, roots...), mkCid(1, 0x55, mh.SHA2_256, -1, r.Bytes(12)))
+		if crHeaderPayloadLen(next) > target-48 {
+			break
+		}
+		roots = next
+	}
+	fill := func(d int, salt byte) cid.Cid {
+		data := append([]byte{salt}, r.Bytes(d)...)[:d]
+		return mkCid(1, 0x55, mh.IDENTITY, -1, data)
+	}
+	for d := 0; d <= 110; d++ {
+		cand := append(append([]cid.Cid{}, roots...), fill(d, 1))
+		if crHeaderPayloadLen(cand) == target {
+			return cand
+		}
+	}
+	for d1 := 1; d1 <= 40; d1++ {
+		for d := 1; d <= 110; d++ {
+			cand := append(append([]cid.Cid{}, roots...), fill(d1, 2), fill(d, 3))
+			if d1 != d && crHeaderPayloadLen(cand) == target {
+				return cand
+			}
+		}
+	}
+	panic(fmt.Sprintf("no root list with header payload length %d", target))
 }
 
 func crBlksFromVal(v Val) []Blk {
